@@ -151,14 +151,33 @@ struct SliceResult {
     died: Option<String>,
 }
 
+/// CPU seconds a worker may burn per run of its slice before it is presumed to spin in a loop that
+/// has no tick site (the deterministic tick budget catches the loops that have one much earlier).
+const CPU_PER_SLICE_QUICK_S: u64 = 30;
+const CPU_PER_SLICE_THOROUGH_S: u64 = 150;
+
 fn spawn_slice(prop: &str, tier: Tier, master: u64, start: u64, end: u64, deadline_s: u64) -> std::io::Result<std::process::Child> {
+    use std::os::unix::process::CommandExt;
     let exe = std::env::current_exe()?;
-    Command::new(exe)
-        .args(["worker", prop, tier.name(), &master.to_string(), &start.to_string(), &end.to_string(), &deadline_s.to_string()])
+    let cpu = if tier == Tier::Quick { CPU_PER_SLICE_QUICK_S } else { CPU_PER_SLICE_THOROUGH_S };
+    let mut cmd = Command::new(exe);
+    cmd.args(["worker", prop, tier.name(), &master.to_string(), &start.to_string(), &end.to_string(), &deadline_s.to_string()])
         .stdin(Stdio::null())
         .stdout(Stdio::piped())
-        .stderr(Stdio::inherit())
-        .spawn()
+        .stderr(Stdio::inherit());
+    unsafe {
+        cmd.pre_exec(move || {
+            let lim = |res, v: u64| {
+                let r = libc::rlimit { rlim_cur: v, rlim_max: v };
+                libc::setrlimit(res, &r);
+            };
+            lim(libc::RLIMIT_CPU, cpu);
+            lim(libc::RLIMIT_AS, 3 << 30);
+            lim(libc::RLIMIT_CORE, 0);
+            Ok(())
+        });
+    }
+    cmd.spawn()
 }
 
 fn collect(mut child: std::process::Child) -> SliceResult {
@@ -178,6 +197,51 @@ fn collect(mut child: std::process::Child) -> SliceResult {
         Err(e) => res.died = Some(e.to_string()),
     }
     res
+}
+
+#[allow(clippy::too_many_arguments)]
+fn run_pool(slices: &[(u64, u64)], opts: &CheckOpts, w: u64, max_wall: u64, t0: Instant, found: &mut Vec<Found>, executed: &mut u64, total: &mut Stats, crashed: &mut Vec<(u64, u64, String)>) {
+    use std::sync::{Arc, Mutex};
+    let queue = Arc::new(Mutex::new(slices.to_vec().into_iter()));
+    type Out = Vec<(u64, u64, SliceResult)>;
+    let results: Arc<Mutex<Out>> = Arc::new(Mutex::new(Vec::new()));
+    let mut handles = Vec::new();
+    for _ in 0..w {
+        let queue = Arc::clone(&queue);
+        let results = Arc::clone(&results);
+        let prop = opts.prop.clone();
+        let (tier, master) = (opts.tier, opts.master);
+        handles.push(std::thread::spawn(move || loop {
+            let next = queue.lock().ok().and_then(|mut q| q.next());
+            let Some((a, e)) = next else { break };
+            let remaining = max_wall.saturating_sub(t0.elapsed().as_secs());
+            if remaining == 0 {
+                break;
+            }
+            let r = match spawn_slice(&prop, tier, master, a, e, remaining.min(100_000)) {
+                Ok(child) => collect(child),
+                Err(err) => SliceResult { found: vec![], done: None, died: Some(err.to_string()) },
+            };
+            if let Ok(mut g) = results.lock() {
+                g.push((a, e, r));
+            }
+        }));
+    }
+    for h in handles {
+        let _ = h.join();
+    }
+    let mut res = std::mem::take(&mut *results.lock().unwrap_or_else(std::sync::PoisonError::into_inner));
+    res.sort_by_key(|(a, _, _)| *a);
+    for (a, e, r) in res {
+        found.extend(r.found);
+        if let Some((n, st)) = r.done {
+            *executed += n;
+            total.merge(st);
+        }
+        if let Some(why) = r.died {
+            crashed.push((a, e, why));
+        }
+    }
 }
 
 fn sanitize(s: &str) -> String {
@@ -220,70 +284,22 @@ pub fn check(opts: &CheckOpts) -> i32 {
     let mut executed = 0u64;
     let mut found: Vec<Found> = Vec::new();
     let mut crashed_slices: Vec<(u64, u64, String)> = Vec::new();
-    {
-        use std::sync::{Arc, Mutex};
-        let queue = Arc::new(Mutex::new(slices.clone().into_iter()));
-        type Out = Vec<(u64, u64, SliceResult)>;
-        let results: Arc<Mutex<Out>> = Arc::new(Mutex::new(Vec::new()));
-        let mut handles = Vec::new();
-        for _ in 0..w {
-            let queue = Arc::clone(&queue);
-            let results = Arc::clone(&results);
-            let prop = opts.prop.clone();
-            let (tier, master) = (opts.tier, opts.master);
-            handles.push(std::thread::spawn(move || loop {
-                let next = queue.lock().ok().and_then(|mut q| q.next());
-                let Some((a, e)) = next else { break };
-                let remaining = max_wall.saturating_sub(t0.elapsed().as_secs());
-                if remaining == 0 {
-                    break;
-                }
-                let r = match spawn_slice(&prop, tier, master, a, e, remaining) {
-                    Ok(child) => collect(child),
-                    Err(err) => SliceResult { found: vec![], done: None, died: Some(err.to_string()) },
-                };
-                if let Ok(mut g) = results.lock() {
-                    g.push((a, e, r));
-                }
-            }));
-        }
-        for h in handles {
-            let _ = h.join();
-        }
-        let mut res = std::mem::take(&mut *results.lock().unwrap_or_else(std::sync::PoisonError::into_inner));
-        res.sort_by_key(|(a, _, _)| *a);
-        for (a, e, r) in res {
-            found.extend(r.found);
-            if let Some((n, st)) = r.done {
-                executed += n;
-                total.merge(st);
-            }
-            if let Some(why) = r.died {
-                crashed_slices.push((a, e, why));
-            }
-        }
-    }
+    run_pool(&slices, opts, w, max_wall, t0, &mut found, &mut executed, &mut total, &mut crashed_slices);
     eprintln!("[driver] run phase done at {:.1}s: {} runs, {} found", t0.elapsed().as_secs_f64(), executed, found.len());
     // isolate crashing runs: one run per process
     let mut harness_crashes: Vec<(u64, String)> = Vec::new();
-    for (a, e, why) in &crashed_slices {
-        eprintln!("worker for runs {a}..{e} died ({why}); isolating");
-        for i in *a..*e {
-            match spawn_slice(&opts.prop, opts.tier, opts.master, i, i + 1, 600) {
-                Ok(c) => {
-                    let r = collect(c);
-                    found.extend(r.found);
-                    if let Some((n, st)) = r.done {
-                        executed += n;
-                        total.merge(st);
-                    }
-                    if let Some(w2) = r.died {
-                        harness_crashes.push((i, w2));
-                    }
-                }
-                Err(err) => harness_crashes.push((i, err.to_string())),
-            }
+    if !crashed_slices.is_empty() {
+        let mut singles: Vec<(u64, u64)> = Vec::new();
+        for (a, e, why) in &crashed_slices {
+            eprintln!("worker for runs {a}..{e} died ({why}); isolating");
+            singles.extend((*a..*e).map(|i| (i, i + 1)));
         }
+        let mut died: Vec<(u64, u64, String)> = Vec::new();
+        // isolation is not cut short by the batch deadline
+        run_pool(&singles, opts, w, u64::MAX / 4, t0, &mut found, &mut executed, &mut total, &mut died);
+        harness_crashes.extend(died.into_iter().map(|(a, _, why)| (a, why)));
+        harness_crashes.sort();
+        harness_crashes.truncate(8);
     }
 
     // report
@@ -357,7 +373,13 @@ pub fn check(opts: &CheckOpts) -> i32 {
             verif_seed: opts.master,
             run_index: *i,
             run_seed: seed,
-            violation: Violation { property: opts.prop.clone(), clause: "process-death".into(), class: format!("process-death:{why}"), detail: format!("the in-process run killed its worker: {why}"), features: BTreeMap::new() },
+            violation: Violation {
+                property: opts.prop.clone(),
+                clause: "process-death".into(),
+                class: format!("process-death:{}", if why.contains("signal: 9") || why.contains("signal: 24") { "cpu-limit (loop without progress)".to_string() } else if why.contains("signal: 6") { "abort (allocation failure or stack overflow)".to_string() } else { why.clone() }),
+                detail: format!("the in-process run took its worker process down, alone in a fresh process: {why}"),
+                features: BTreeMap::new(),
+            },
             minimised: false,
             scenario: scn,
             how_to_replay: format!("/verif/check {} --replay {}", opts.prop, path.display()),
@@ -447,6 +469,25 @@ fn minimise_found(f: Found, kf: &KnownFindings) -> Found {
         }
         _ => f,
     }
+}
+
+/// Minimise the scenario of a replay file further (longer budget), writing `<file>.min.json`.
+pub fn minimise_file(path: &str, wall_s: u64) -> i32 {
+    let Ok(text) = std::fs::read_to_string(path) else { return 2 };
+    let Ok(mut rf) = serde_json::from_str::<ReplayFile>(&text) else { return 2 };
+    let class = rf.violation.class.clone();
+    let mut m = Minimiser::new(&class, 100_000, wall_s);
+    let small = m.run(&rf.scenario);
+    let mut st = Stats::default();
+    if let Some(v) = props::check(&small, &mut st).into_iter().find(|x| x.class == class) {
+        rf.violation = v;
+        rf.scenario = small;
+        rf.minimised = true;
+    }
+    let out = format!("{path}.min.json");
+    let _ = std::fs::write(&out, serde_json::to_string_pretty(&rf).unwrap_or_default());
+    println!("{} checks; wrote {out}; {} lines", m.checks, rf.scenario.world.files.values().map(|t| t.lines().count()).sum::<usize>());
+    0
 }
 
 /// Replay one file in this (fresh) process.
